@@ -8,7 +8,7 @@ From Coq Require Import ZArith List Bool Sorted Permutation.
 From Verif Require Import Reloc.RelocModel Sections.SectionModel Sections.ChunkModel Sections.ChunkProofs Sections.JitReloc
   Sections.JitRelocProofs Sections.SectionProofs Sections.SectionTable Sections.CopyProofs
   Sections.ShrinkProofs Sections.StableProofs Sections.CoverProofs Sections.SettleProofs Sections.SectionSummary Sections.SectionExamples
-  Sections.FlagsModel Sections.FlagsProofs Sections.WidthModel Sections.WidthProofs Sections.JitCopyModel Sections.JitCopyProofs.
+  Sections.FlagsModel Sections.FlagsProofs Sections.WidthModel Sections.WidthProofs Sections.JitCopyModel Sections.JitCopyProofs Sections.BuiltProofs Sections.BuiltJit Sections.BuiltJitCalls Sections.MonoProofs Sections.IdealProofs Sections.ReachIdeal.
 From VerifGen Require C10Consts.
 Import ListNotations.
 Local Open Scope Z_scope.
@@ -108,6 +108,22 @@ Theorem C10_copy_refuses_small :
   (forall h h' dst, wf_holder h -> flatten h = (EOk, h') -> code_size h' <= dst -> existsb (too_small dst) h' = false).
 Proof. exact copy_refuses_small_all. Qed.
 Print Assumptions C10_copy_refuses_small.
+
+(* what a REFUSED copy leaves behind: the sections in front of the first one that does not fit have been copied (and padded) exactly
+   as a successful copy of that prefix does; the offending section and everything behind it were not touched; kPadTargetBuffer
+   is not applied *)
+Theorem C10_copy_refused_prefix : forall l1 s l2 mem dst ps pt,
+  existsb (too_small dst) l1 = false -> too_small dst s = true ->
+  copy_flat (l1 ++ s :: l2) mem dst ps pt = (EInvalidArgument, snd (fst (copy_loop l1 mem dst ps 0))) /\
+  fst (fst (copy_loop l1 mem dst ps 0)) = EOk.
+Proof. exact copy_flat_refused. Qed.
+Print Assumptions C10_copy_refused_prefix.
+
+Theorem C10_example_copy_refused :
+  copy_flat [mkSection 0 0 1 0 8 4 [1; 2; 3; 4] []; mkSection 1 0 8 8 0 8 [9; 9; 9; 9; 9; 9; 9; 9] []] (repeat 205 14) 12 true true
+  = (EInvalidArgument, [1; 2; 3; 4; 0; 0; 0; 0; 205; 205; 205; 205; 205; 205]).
+Proof. exact copy_flat_refused_example. Qed.
+Print Assumptions C10_example_copy_refused.
 
 (* never writes outside: whatever the sections look like (flattened or not) and whether the call succeeds or refuses
    half way, memory keeps its length and every cell at or beyond dst_size keeps its value *)
@@ -255,12 +271,85 @@ Theorem C10_relocated_image_total : forall h0 h tab calls base h2 red,
 Proof. exact relocated_image_total. Qed.
 Print Assumptions C10_relocated_image_total.
 
+(* JitRuntime::_add's debug assertion `estimated_code_size - code_size_reduction == code->code_size()` for the REAL relocated
+   holder (relocate_holder: all four site kinds; table last / not last / absent); the address table has only a reservation, no
+   buffer, before relocation *)
+Theorem C10_relocated_code_size : forall h0 h tab calls base h2 red,
+  wf_holder h0 -> flatten h0 = (EOk, h) -> NoDup (map sid h) -> (forall s, In s h -> 0 <= sid s) ->
+  (forall s, In s h -> Some (sid s) = tab -> sbsize s = 0) ->
+  relocate_holder h tab calls base = inl (h2, red) ->
+  0 <= red /\ code_size h2 = code_size h - red /\ code_size h2 <= code_size h.
+Proof. exact relocated_code_size. Qed.
+Print Assumptions C10_relocated_code_size.
+
+(* everything about relocation for holders the API can produce, with the side conditions (unique ids, well-sized buffers,
+   collision-free layout) DISCHARGED from reachability: layout untouched, only .text and the table change, the reduction is what
+   code_size loses, every cell below the final size belongs to a section of the relocated holder *)
+Theorem C10_relocated_reachable : forall h0 h tab calls base h2 red,
+  reachable h0 -> data_len_ok h0 -> flatten h0 = (EOk, h) ->
+  (forall s, In s h -> Some (sid s) = tab -> sbsize s = 0) ->
+  relocate_holder h tab calls base = inl (h2, red) ->
+  map soff h2 = map soff h /\ map sid h2 = map sid h /\ Forall data_ok h2 /\ disjoint_layout h2 /\
+  (forall s s2, In s h -> In s2 h2 -> sid s2 = sid s -> sid s <> 0 -> Some (sid s) <> tab -> s2 = s) /\
+  0 <= red /\ code_size h2 = code_size h - red /\
+  (forall c, 0 <= c < code_size h2 -> exists s2, In s2 h2 /\ soff s2 <= c < soff s2 + real_size s2).
+Proof. exact relocated_reachable. Qed.
+Print Assumptions C10_relocated_reachable.
+
+Theorem C10_relocated_copy_exact_reachable : forall h0 h tab calls base h2 red mem dst ps pt mem',
+  reachable h0 -> data_len_ok h0 -> flatten h0 = (EOk, h) ->
+  relocate_holder h tab calls base = inl (h2, red) -> 0 <= dst <= Z.of_nat (length mem) ->
+  copy_flat h2 mem dst ps pt = (EOk, mem') ->
+  map soff h2 = map soff h /\ length mem' = length mem /\
+  (forall c, dst <= c -> cell mem' c = cell mem c) /\
+  (forall s, In s h2 -> forall k, 0 <= k < sbsize s -> cell mem' (soff s + k) = cell (sdata s) k) /\
+  (forall s, In s h2 -> forall c, soff s + sbsize s <= c < wend ps dst s -> cell mem' c = 0) /\
+  (pt = true -> forall c, ends ps dst h2 0 <= c < dst -> cell mem' c = 0) /\
+  (forall c, 0 <= c -> (forall s, In s h2 -> ~ (soff s <= c < wend ps dst s)) -> (pt = false \/ c < ends ps dst h2 0) ->
+             cell mem' c = cell mem c).
+Proof. exact relocated_copy_exact_reachable. Qed.
+Print Assumptions C10_relocated_copy_exact_reachable.
+
+Theorem C10_jit_add_reloc_image_reachable : forall st calls base fill final img h2,
+  reachable (jh st) -> data_len_ok (jh st) ->
+  jit_add_reloc st calls base fill = (JOk, final, img, h2) ->
+  exists h1 red, flatten (jh st) = (EOk, h1) /\ relocate_holder h1 (jtab st) calls base = inl (h2, red) /\
+    final = code_size h1 - red /\ map soff h2 = map soff h1 /\
+    (forall s, In s h2 -> forall k, 0 <= k < sbsize s -> soff s + k < final -> cell (flat img) (soff s + k) = cell (sdata s) k) /\
+    (forall s, In s h2 -> forall c, soff s + sbsize s <= c < wend true (code_size h1) s -> c < final -> cell (flat img) c = 0).
+Proof. exact jit_add_reloc_image_reachable. Qed.
+Print Assumptions C10_jit_add_reloc_image_reachable.
+
+Theorem C10_example_relocated_reachable : exists h h2,
+  reachable ex_rr /\ data_len_ok ex_rr /\ flatten ex_rr = (EOk, h) /\
+  (forall s, In s h -> Some (sid s) = Some 1 -> sbsize s = 0) /\
+  relocate_holder h (Some 1) [SCall 0 1311768467463790320] 4194304 = inl (h2, 0) /\ code_size h2 = 16 /\
+  map sdata h2 = [[255; 21; 2; 0; 0; 0]; [240; 222; 188; 154; 120; 86; 52; 18]].
+Proof. exact relocated_reachable_example. Qed.
+Print Assumptions C10_example_relocated_reachable.
+
 Theorem C10_example_relocate : exists h2,
   relocate_holder ex_rel (Some 1) [SCall 0 1311768467463790320; SCall 6 4198400] 4194304 = inl (h2, 8) /\
   map sdata h2 = [ [255; 21; 10; 0; 0; 0; 64; 232; 244; 15; 0; 0]; [240; 222; 188; 154; 120; 86; 52; 18] ] /\
   map sbsize h2 = [12; 8] /\ map svsize h2 = [16; 8] /\ code_size h2 = 24.
 Proof. exact ex_relocate. Qed.
 Print Assumptions C10_example_relocate.
+
+(* ---- the layout is monotone: if no section's real size grows (same sections, alignments, order) and the larger layout fits 64 bits,
+   the smaller one fits too and its code_size is not larger — "the estimate is never smaller than the final size" for ANY shrinking of
+   ANY sections, not only for the address table ---- *)
+Theorem C10_code_size_monotone : forall h h', wf_holder h -> wf_holder h' ->
+  Forall2 (fun a b => 0 <= real_size b <= real_size a /\ salign b = salign a /\ align_ok (salign a) /\ real_size a < W64) h h' ->
+  pass1 0 h = true ->
+  pass1 0 h' = true /\ code_size h' <= code_size h /\ code_size h < W64.
+Proof. exact code_size_monotone. Qed.
+Print Assumptions C10_code_size_monotone.
+
+Theorem C10_example_code_size_monotone :
+  code_size [mkSection 0 0 1 0 0 10 [] []; mkSection 1 0 64 0 0 30 [] []; mkSection 2 0 16 0 0 8 [] []] = 104 /\
+  code_size [mkSection 0 0 1 0 0 10 [] []; mkSection 1 0 64 0 0 0 [] []; mkSection 2 0 16 0 0 8 [] []] = 24.
+Proof. exact code_size_monotone_example. Qed.
+Print Assumptions C10_example_code_size_monotone.
 
 (* ---- estimate before relocation >= size after: the address table t is the last section; relocate_to_base shrinks it
    from the reserved virtual size to the used slots; final size = estimate - reduction <= estimate ---- *)
@@ -299,6 +388,29 @@ Theorem C10_cstr_names : (forall buf, Forall (fun c => c <> 0) (cstr buf)) /\
 Proof. exact (conj cstr_no_nul (conj cstr_prefix new_section_cstr_findable)). Qed.
 Print Assumptions C10_cstr_names.
 
+(* the overflow check is EXACT with respect to mathematics: with `ideal_end` = the end of the layout computed on unbounded integers
+   (ceil_align = least multiple >= x, no wrap anywhere), pass 1 succeeds iff ideal_end < 2^64 and then code_size = ideal_end; for every
+   holder the API can produce, flatten fails (kTooLarge, holder untouched, code_size = SIZE_MAX) iff the sections need 2^64 bytes or more *)
+Theorem C10_overflow_check_exact : forall h, wf_holder h -> Forall (fun s => 0 < salign s) (tl h) ->
+  (pass1 0 h = true <-> ideal_end 0 h < W64) /\ (pass1 0 h = true -> code_size h = ideal_end 0 h).
+Proof. exact flatten_succeeds_iff_fits. Qed.
+Print Assumptions C10_overflow_check_exact.
+
+Theorem C10_flatten_fails_iff_too_large : forall h, reachable h ->
+  (flatten h = (ETooLarge, h) <-> W64 <= ideal_end 0 h) /\
+  ((exists h', flatten h = (EOk, h')) <-> ideal_end 0 h < W64) /\
+  (ideal_end 0 h < W64 -> code_size h = ideal_end 0 h) /\ (W64 <= ideal_end 0 h -> code_size h = SIZE_MAX).
+Proof. exact reachable_flatten_fails_iff_too_large. Qed.
+Print Assumptions C10_flatten_fails_iff_too_large.
+
+Theorem C10_example_ideal :
+  ideal_end 0 [mkSection 0 INT_MIN 0 0 0 10 [] []; mkSection 1 0 64 0 5 0 [] []] = 69 /\
+  pass1 0 [mkSection 0 INT_MIN 0 0 (W64 - 2) 0 [] []; mkSection 1 0 1 0 1 0 [] []] = true /\
+  ideal_end 0 [mkSection 0 INT_MIN 0 0 (W64 - 2) 0 [] []; mkSection 1 0 1 0 2 0 [] []] = W64 /\
+  pass1 0 [mkSection 0 INT_MIN 0 0 (W64 - 2) 0 [] []; mkSection 1 0 1 0 2 0 [] []] = false.
+Proof. exact ideal_examples. Qed.
+Print Assumptions C10_example_ideal.
+
 (* ---- names: a created section is found under its name (first section of that name wins); names never influence the layout ---- *)
 Theorem C10_new_section_findable : forall h name al ord h', reachable h -> 0 <= al < 4294967296 -> INT_MIN <= ord <= INT_MAX ->
   new_section h name al ord = (EOk, h') ->
@@ -307,6 +419,23 @@ Theorem C10_new_section_findable : forall h name al ord h', reachable h -> 0 <= 
                (forall k sk, 0 <= k < j -> by_id h' k = Some sk -> name_matches sk name = false).
 Proof. exact new_section_findable. Qed.
 Print Assumptions C10_new_section_findable.
+
+(* section_by_name is sound AND complete for every holder the API can produce and every key (not only for a section that was
+   just created): a hit is the lowest id whose name matches; a miss means no section matches (or the key is longer than any name) *)
+Theorem C10_section_by_name_complete : forall h key, reachable h ->
+  match section_by_name h key with
+  | Some j => Z.of_nat (length key) <= MAX_NAME /\
+              exists sj, In sj h /\ sid sj = j /\ name_matches sj key = true /\
+                         forall s, In s h -> sid s < j -> name_matches s key = false
+  | None => MAX_NAME < Z.of_nat (length key) \/ forall s, In s h -> name_matches s key = false
+  end.
+Proof. exact section_by_name_complete. Qed.
+Print Assumptions C10_section_by_name_complete.
+
+Theorem C10_example_by_name : reachable ex_h3 /\ section_by_name ex_h3 [46; 100] = Some 1 /\ section_by_name ex_h3 [46; 98] = Some 2 /\
+  section_by_name ex_h3 [120] = None /\ section_by_name ex_h3 (repeat 65 36) = None.
+Proof. exact ex_by_name. Qed.
+Print Assumptions C10_example_by_name.
 
 Theorem C10_layout_independent_of_names : forall g h,
   flatten (map (rename g) h) = (fst (flatten h), map (rename g) (snd (flatten h))) /\
@@ -458,10 +587,95 @@ Theorem C10_relocated_jit_copy_agrees : forall h0 h tab calls base h2 red mem m1
 Proof. exact relocated_jit_copy_agrees. Qed.
 Print Assumptions C10_relocated_jit_copy_agrees.
 
+(* the by-id walk of JitRuntime::_add (code->_sections) visits every section of the holder exactly once *)
+Theorem C10_sections_by_id_permutation : forall h, reachable h -> Permutation (sections_by_id h) h.
+Proof. exact sections_by_id_permutation. Qed.
+Print Assumptions C10_sections_by_id_permutation.
+
 Theorem C10_example_jit_copy : exists h m1, flatten ex_h3 = (EOk, h) /\
   copy_flat h (repeat 205 104) 104 true false = (EOk, m1) /\ jit_copy h (repeat 205 104) = m1.
 Proof. exact jit_copy_example. Qed.
 Print Assumptions C10_example_jit_copy.
+
+(* ---- premises discharged: holders BUILT through the API with well-sized buffers (init, new_section, setting a section's bytes
+   together with its size, flatten) are reachable and have well-sized buffers, so the copy / JitRuntime statements hold for them
+   with no side condition at all ---- *)
+Theorem C10_built_ok : forall h, built h -> reachable h /\ data_len_ok h.
+Proof. exact built_ok. Qed.
+Print Assumptions C10_built_ok.
+
+Theorem C10_built_jit_image : forall h fill n img h1, built h -> jit_add h fill = (EOk, n, img, h1) ->
+  flatten h = (EOk, h1) /\ n = code_size h1 /\ 0 < n /\ Z.of_nat (length img) = n /\
+  forall c, 0 <= c < n -> exists s, In s h1 /\
+    ((soff s <= c < soff s + sbsize s /\ cell img c = cell (sdata s) (c - soff s)) \/
+     (soff s + sbsize s <= c < soff s + real_size s /\ cell img c = 0)).
+Proof. exact built_jit_image. Qed.
+Print Assumptions C10_built_jit_image.
+
+Theorem C10_built_copy_exact : forall h h' mem dst ps pt mem', built h -> flatten h = (EOk, h') -> 0 <= dst <= Z.of_nat (length mem) ->
+  copy_flat h' mem dst ps pt = (EOk, mem') ->
+  length mem' = length mem /\
+  (forall c, dst <= c -> cell mem' c = cell mem c) /\
+  (forall s, In s h' -> forall k, 0 <= k < sbsize s -> cell mem' (soff s + k) = cell (sdata s) k) /\
+  (forall s, In s h' -> forall c, soff s + sbsize s <= c < wend ps dst s -> cell mem' c = 0) /\
+  (pt = true -> forall c, ends ps dst h' 0 <= c < dst -> cell mem' c = 0) /\
+  (forall c, 0 <= c -> (forall s, In s h' -> ~ (soff s <= c < wend ps dst s)) -> (pt = false \/ c < ends ps dst h' 0) ->
+             cell mem' c = cell mem c).
+Proof. exact built_copy_exact. Qed.
+Print Assumptions C10_built_copy_exact.
+
+Theorem C10_example_built : built ex_h3.
+Proof. exact built_example. Qed.
+Print Assumptions C10_example_built.
+
+(* emitter states built the way emitters build them (sections through new_section, bytes appended together with the size, site
+   placeholders appended to .text): reachable, well-sized, the table (if any) without a buffer — and therefore JitRuntime::_add with
+   relocations needs NO premise: final size = estimate - reduction = code_size of the relocated holder, relocated bytes and zero tails
+   at their offsets, every cell below the final size covered *)
+Theorem C10_builtj_inv : forall st, builtj st ->
+  reachable (jh st) /\ data_len_ok (jh st) /\ Forall (fun s => Some (sid s) = jtab st -> sbsize s = 0) (jh st) /\ (forall t, jtab st = Some t -> 0 < t).
+Proof. exact builtj_inv. Qed.
+Print Assumptions C10_builtj_inv.
+
+Theorem C10_builtj_jit_add_reloc : forall st calls base fill final img h2, builtj st ->
+  jit_add_reloc st calls base fill = (JOk, final, img, h2) ->
+  exists h1 red, flatten (jh st) = (EOk, h1) /\ relocate_holder h1 (jtab st) calls base = inl (h2, red) /\
+    0 <= red /\ final = code_size h1 - red /\ code_size h2 = final /\ map soff h2 = map soff h1 /\
+    (forall s, In s h2 -> forall k, 0 <= k < sbsize s -> soff s + k < final -> cell (flat img) (soff s + k) = cell (sdata s) k) /\
+    (forall s, In s h2 -> forall c, soff s + sbsize s <= c < wend true (code_size h1) s -> c < final -> cell (flat img) c = 0) /\
+    (forall c, 0 <= c < final -> exists s2, In s2 h2 /\ soff s2 <= c < soff s2 + real_size s2).
+Proof. exact builtj_jit_add_reloc. Qed.
+Print Assumptions C10_builtj_jit_add_reloc.
+
+Theorem C10_example_builtj : builtj exj /\
+  exists img h2, jit_add_reloc exj [SAbs 0 1 5] 4194304 205 = (JOk, 21, img, h2) /\
+                 flat img = [21; 0; 64; 0; 0; 0; 0; 0; 0; 0; 0; 0; 0; 0; 0; 0; 1; 2; 3; 4; 5].
+Proof. exact builtj_example. Qed.
+Print Assumptions C10_example_builtj.
+
+(* the same with `call abs` sites (builtc adds emit_call_bytes: the address table is created on demand by new_section — always
+   accepted — gets one reserved slot per distinct target and never a buffer): JitRuntime::_add with call / embed_label /
+   embed_label_delta / jz sites has NO premise *)
+Theorem C10_builtc_inv : forall st, builtc st ->
+  reachable (jh st) /\ data_len_ok (jh st) /\ Forall (fun s => Some (sid s) = jtab st -> sbsize s = 0) (jh st) /\ (forall t, jtab st = Some t -> 0 < t).
+Proof. exact builtc_inv. Qed.
+Print Assumptions C10_builtc_inv.
+
+Theorem C10_builtc_jit_add_reloc : forall st calls base fill final img h2, builtc st ->
+  jit_add_reloc st calls base fill = (JOk, final, img, h2) ->
+  exists h1 red, flatten (jh st) = (EOk, h1) /\ relocate_holder h1 (jtab st) calls base = inl (h2, red) /\
+    0 <= red /\ final = code_size h1 - red /\ code_size h2 = final /\ map soff h2 = map soff h1 /\
+    (forall s, In s h2 -> forall k, 0 <= k < sbsize s -> soff s + k < final -> cell (flat img) (soff s + k) = cell (sdata s) k) /\
+    (forall s, In s h2 -> forall c, soff s + sbsize s <= c < wend true (code_size h1) s -> c < final -> cell (flat img) c = 0) /\
+    (forall c, 0 <= c < final -> exists s2, In s2 h2 /\ soff s2 <= c < soff s2 + real_size s2).
+Proof. exact builtc_jit_add_reloc. Qed.
+Print Assumptions C10_builtc_jit_add_reloc.
+
+Theorem C10_example_builtc : builtc exc /\
+  exists img h2, jit_add_reloc exc [SCall 0 1311768467463790320; SCall 6 4198400] 4194304 205 = (JOk, 24, img, h2) /\
+                 flat img = [255; 21; 10; 0; 0; 0; 64; 232; 244; 15; 0; 0; 0; 0; 0; 0; 240; 222; 188; 154; 120; 86; 52; 18].
+Proof. exact builtc_example. Qed.
+Print Assumptions C10_example_builtc.
 
 (* ---- translator tie: the constants the model hard-codes equal those re-extracted from /repo's headers and from a freshly
    initialised holder on THIS run (coq/gen/C10Consts.v is regenerated by the check; a changed limit / enumerator / initial field /
